@@ -82,6 +82,11 @@ CHECKS = {
    text='Explicit-state breadth-first search over sequences of MCNP-insignificant rewrites (upper-casing, blanks and tabs, leading blanks, continuation by 5 blanks / tab / trailing ampersand, $ and c comments also inside continued cards, message block, number respellings including the Fortran forms, data-card shorthand versus expansion) applied one site at a time to four base decks covering every card type; states are deck texts de-duplicated on identity; in every state the parsed output (surfaces, volumes, compositions numerically, GEOMCOMP, boundary conditions) must equal that of the base deck.',
    note='Trusted: the rewrite menu is MCNP-equivalent (manual). Sites are capped at the first, middle and last token boundary of a card; depth 2 in the quick tier, depth 3 (time-capped, the completed depth is reported) in the thorough tier. CRLF line ends are not in the property and are not demanded.',
    tech='explicit-state BFS over rewrite sequences with state de-duplication; differential comparison with the base deck'),
+
+ 'C08': dict(cat='model_checking', ref='4/C08',
+   text='Bounded exhaustive exploration of a deck family aimed at the interleavings of pruning, de-duplication, caching and inlining (patently empty cells at level 0, as fillers, nested, shared by two containers, complement of a lattice cell, duplicated surface cards, flagged surfaces unused or de-duplicated away) times all inlining / de-duplication configurations and the three --skip options, plus the states of the generators of eight other checks; every written file is parsed by an independent reader and must satisfy each clause of the statement (ids defined once, references resolved, counts right, no surface on both sides, finite numbers, GEOMCOMP partition, COMPOSITION count).',
+   note='Trusted: TRIPOLI-4 input conventions (DESIGN 5); the reader is written from them, not from the writer. The same structural report is a side condition of every other check.',
+   tech='explicit choice-tree enumeration of decks x option sets; total structural report of every written file'),
 }
 NA_REASON = 'check not built yet in this build round (planned, see DESIGN.md section 4); no claim is made'
 
